@@ -60,6 +60,26 @@ def _merge_branch_assigns(n):
     if n.get('inner'):
         n = dict(n)
         n['inner'] = [_merge_branch_assigns(c) for c in n['inner']]
+    if n.get('kind') == 'BinaryOperator' and n.get('opcode') == '=':
+        # x = -x  /  x = x * -1  /  x = -1 * x   ->   x *= -1   (one spelling of a sign flip)
+        lhs, rhs = n['inner']
+        lt = unparen(S(lhs)).replace(' ', '')
+        r0 = strip(rhs)
+        flip = False
+        if isinstance(r0, dict) and r0.get('kind') == 'UnaryOperator' and r0.get('opcode') == '-' \
+                and unparen(S(r0['inner'][0])).replace(' ', '') == lt:
+            flip = True
+        if isinstance(r0, dict) and r0.get('kind') == 'BinaryOperator' and r0.get('opcode') == '*':
+            a_, b_ = [unparen(S(x)).replace(' ', '') for x in r0['inner']]
+            if {a_, b_} == {lt, '-1'}:
+                flip = True
+        if flip:
+            m = dict(n)
+            m['kind'], m['opcode'] = 'CompoundAssignOperator', '*='
+            m['inner'] = [lhs, dict(kind='UnaryOperator', opcode='-', inner=[dict(kind='IntegerLiteral', value='1',
+                                                                              type={'qualType': 'int'})],
+                                    type={'qualType': 'int'})]
+            return m
     if n.get('kind') == 'IfStmt' and len(n['inner']) == 3:
         a, b = _single_assign(n['inner'][1]), _single_assign(n['inner'][2])
         if a and b and strip(a[0])['referencedDecl'].get('name') == strip(b[0])['referencedDecl'].get('name'):
@@ -99,6 +119,107 @@ def _assigns_var(n, var):
         if k == 'UnaryOperator' and x.get('opcode') in ('++', '--') and unparen(S(x['inner'][0])) == var:
             return True
     return False
+
+
+def _cursor_pointers(body):
+    """A local pointer that starts at an array (`const int *p = terms;`), is only ever advanced (`p++`, `p += k`) and
+    read through `*p` / `p[k]` is the pointer spelling of an index cursor: rewritten to `long p = 0`, `terms[p]`,
+    `terms[p + k]` so that the cursor idiom is recognised in one form."""
+    decls = {}
+    for x in _walk_nodes(body):
+        if x.get('kind') == 'VarDecl' and '*' in (x.get('type') or {}).get('qualType', '') and x.get('inner'):
+            init = strip(x['inner'][0])
+            if init.get('kind') == 'DeclRefExpr' and '*' in (init.get('type') or {}).get('qualType', '*'):
+                decls[x['id']] = (x, init)
+    if not decls:
+        return body
+    bad = set()
+
+    def refs(n):
+        return strip(n).get('kind') == 'DeclRefExpr' and (strip(n).get('referencedDecl') or {}).get('id') in decls
+
+    def rid(n):
+        return (strip(n).get('referencedDecl') or {}).get('id')
+
+    def scan(n, parent=None, role=None):
+        if not isinstance(n, dict):
+            return
+        k = n.get('kind')
+        if k == 'DeclRefExpr' and (n.get('referencedDecl') or {}).get('id') in decls:
+            if role not in ('deref', 'subbase', 'incr'):
+                bad.add(n['referencedDecl']['id'])
+            return
+        kids = n.get('inner', []) or []
+        if k == 'UnaryOperator' and n.get('opcode') == '*' and refs(kids[0]):
+            scan(strip(kids[0]), n, 'deref')
+            return
+        if k == 'UnaryOperator' and n.get('opcode') in ('++',) and refs(kids[0]):
+            scan(strip(kids[0]), n, 'incr')
+            return
+        if k == 'CompoundAssignOperator' and n.get('opcode') == '+=' and refs(kids[0]):
+            scan(strip(kids[0]), n, 'incr')
+            scan(kids[1], n)
+            return
+        if k == 'ArraySubscriptExpr' and refs(kids[0]):
+            scan(strip(kids[0]), n, 'subbase')
+            scan(kids[1], n)
+            return
+        for c in kids:
+            scan(c, n)
+    for x in _walk_nodes(body):
+        if x.get('kind') == 'VarDecl' and x.get('id') in decls:
+            continue
+    # scan everything except the initialisers of the cursor declarations themselves
+    def scan_top(n):
+        if not isinstance(n, dict):
+            return
+        if n.get('kind') == 'VarDecl' and n.get('id') in decls:
+            return
+        if n.get('kind') in ('UnaryOperator', 'CompoundAssignOperator', 'ArraySubscriptExpr', 'DeclRefExpr'):
+            scan(n)
+            return
+        for c in n.get('inner', []) or []:
+            scan_top(c)
+    scan_top(body)
+    good = {i: v for i, v in decls.items() if i not in bad}
+    if not good:
+        return body
+    LONG = {'qualType': 'long'}
+
+    def idx_ref(n):
+        m = dict(strip(n))
+        m['type'] = LONG
+        return m
+
+    def rw(n):
+        if not isinstance(n, dict):
+            return n
+        k = n.get('kind')
+        kids = n.get('inner', []) or []
+        if k == 'VarDecl' and n.get('id') in good:
+            m = dict(n)
+            m['type'] = LONG
+            m['inner'] = [dict(kind='IntegerLiteral', value='0', type=LONG)]
+            return m
+        if k == 'UnaryOperator' and n.get('opcode') == '*' and refs(kids[0]) and rid(kids[0]) in good:
+            m = dict(kind='ArraySubscriptExpr', inner=[_deep(good[rid(kids[0])][1]), idx_ref(kids[0])])
+            for key in ('type', 'range', 'loc', 'valueCategory'):
+                if key in n:
+                    m[key] = n[key]
+            return m
+        if k == 'ArraySubscriptExpr' and refs(kids[0]) and rid(kids[0]) in good:
+            m = dict(n)
+            m['inner'] = [_deep(good[rid(kids[0])][1]),
+                          dict(kind='BinaryOperator', opcode='+', inner=[idx_ref(kids[0]), rw(kids[1])], type=LONG)]
+            return m
+        if k == 'DeclRefExpr' and (n.get('referencedDecl') or {}).get('id') in good:
+            return idx_ref(n)
+        if kids:
+            m = dict(n)
+            m['inner'] = [rw(c) for c in kids]
+            return m
+        return n
+    return rw(body)
 
 
 def _while_to_for(n):
@@ -346,6 +467,265 @@ def _undo_c_renames(funcs, unit, fn_renames):
                 rd['name'] = idmap[rd['id']]
 
 
+def _deep(n):
+    if isinstance(n, dict):
+        return {k: _deep(v) for k, v in n.items()}
+    if isinstance(n, list):
+        return [_deep(x) for x in n]
+    return n
+
+
+def _callee_name(call):
+    c = strip(call['inner'][0]) if call.get('inner') else {}
+    rd = c.get('referencedDecl') or {}
+    return rd.get('name') if rd.get('kind') == 'FunctionDecl' else None
+
+
+def _inline_new_c_helpers(units, notes):
+    """A static helper that the reference tree does not have (see c_reference.py) is the product of an extract-function
+    refactoring: its body is put back at its call sites in the model - `h(a);` and `x = h(a);` / `T x = h(a);` statements
+    for helpers whose only `return` is their last statement, any call for helpers that consist of one `return expr;` -
+    with parameters replaced by the argument expressions and locals renamed.  A helper inlined at every call is dropped."""
+    from .c_reference import REFERENCE
+    funcs = {}
+    for u, data in units:
+        for fn in data['funcs']:
+            funcs[fn['name']] = (u, fn)
+    new = {name for name in funcs if name not in REFERENCE}
+    if not new:
+        return
+
+    def body_of(fn):
+        b = [c for c in fn.get('inner', []) if c.get('kind') == 'CompoundStmt']
+        return b[0] if b else None
+
+    def params_of(fn):
+        return [p for p in fn.get('inner', []) if p.get('kind') == 'ParmVarDecl']
+
+    def returns_in(n):
+        return [x for x in _walk_nodes(n) if x.get('kind') == 'ReturnStmt']
+
+    def shape(fn):
+        """'expr' (single return expr), 'tail' (returns only as last statement or none), or None."""
+        b = body_of(fn)
+        if b is None:
+            return None
+        stmts = [x for x in b.get('inner', []) if x.get('kind') != 'NullStmt']
+        rets = returns_in(b)
+        if len(stmts) == 1 and stmts[0].get('kind') == 'ReturnStmt' and stmts[0].get('inner'):
+            return 'expr'
+        if not rets or (len(rets) == 1 and stmts and stmts[-1] is rets[0]):
+            return 'tail'
+        return None
+
+    uid = [0]
+
+    def instantiate(fn, args):
+        """(statements of the body without the final return, return expression or None), parameters substituted."""
+        uid[0] += 1
+        b = _deep(body_of(fn))
+        sub = {p['id']: a for p, a in zip(params_of(fn), args)}
+        ren = {}
+        for x in _walk_nodes(b):
+            if x.get('kind') == 'VarDecl':
+                ren[x['id']] = '%s__%s%d' % (x['name'], fn['name'], uid[0])
+                x['name'] = ren[x['id']]
+
+        def rewrite(n):
+            if not isinstance(n, dict):
+                return n
+            if n.get('kind') == 'DeclRefExpr':
+                rid = (n.get('referencedDecl') or {}).get('id')
+                if rid in sub:
+                    return dict(kind='ParenExpr', inner=[_deep(sub[rid])], type=n.get('type', {}))
+                if rid in ren:
+                    n = dict(n)
+                    n['referencedDecl'] = dict(n['referencedDecl'], name=ren[rid])
+                    return n
+            if n.get('inner'):
+                n = dict(n)
+                n['inner'] = [rewrite(c) for c in n['inner']]
+            return n
+        b = rewrite(b)
+
+        def strip_lines(n):
+            # inlined statements take the position of the call (the dump encodes lines as deltas: no `line` = same line)
+            if isinstance(n, dict):
+                for k in ('loc', 'range'):
+                    d = n.get(k)
+                    if isinstance(d, dict):
+                        for sub in [d] + [d.get(x) for x in ('begin', 'end', 'spellingLoc', 'expansionLoc')] + \
+                                [(d.get('begin') or {}).get(x) for x in ('spellingLoc', 'expansionLoc')] + \
+                                [(d.get('end') or {}).get(x) for x in ('spellingLoc', 'expansionLoc')]:
+                            if isinstance(sub, dict):
+                                sub.pop('line', None)
+                for c in n.get('inner', []) or []:
+                    strip_lines(c)
+        strip_lines(b)
+        stmts = [x for x in b.get('inner', [])]
+        rexpr = None
+        if stmts and stmts[-1].get('kind') == 'ReturnStmt':
+            r = stmts.pop()
+            rexpr = r['inner'][0] if r.get('inner') else None
+        return stmts, rexpr
+
+    inlined = set()
+
+    def process_expr(n):
+        """expression-level substitution of single-return helpers"""
+        if not isinstance(n, dict):
+            return n
+        if n.get('inner'):
+            n = dict(n)
+            n['inner'] = [process_expr(c) for c in n['inner']]
+        if n.get('kind') == 'CallExpr':
+            h = _callee_name(n)
+            if h in new and shape(funcs[h][1]) == 'expr' and len(n['inner']) - 1 == len(params_of(funcs[h][1])):
+                stmts, rexpr = instantiate(funcs[h][1], n['inner'][1:])
+                if not stmts and rexpr is not None:
+                    inlined.add(h)
+                    out = dict(kind='ParenExpr', inner=[rexpr])
+                    for k in ('type', 'range', 'loc'):
+                        if k in n:
+                            out[k] = n[k]
+                    return out
+        return n
+
+    def process_block(n, caller):
+        if not isinstance(n, dict):
+            return n
+        if n.get('inner'):
+            n = dict(n)
+            n['inner'] = [process_block(c, caller) for c in n['inner']]
+        if n.get('kind') != 'CompoundStmt':
+            return n
+        out = []
+        for st in n.get('inner', []):
+            s0 = strip(st) if isinstance(st, dict) else st
+            call, kind, target = None, None, None
+            if isinstance(s0, dict) and s0.get('kind') == 'CallExpr':
+                call, kind = s0, 'stmt'
+            elif isinstance(s0, dict) and s0.get('kind') == 'BinaryOperator' and s0.get('opcode') == '=' \
+                    and strip(s0['inner'][1]).get('kind') == 'CallExpr':
+                call, kind, target = strip(s0['inner'][1]), 'assign', s0['inner'][0]
+            elif isinstance(s0, dict) and s0.get('kind') == 'DeclStmt' and len(s0.get('inner', [])) == 1 \
+                    and s0['inner'][0].get('kind') == 'VarDecl' and s0['inner'][0].get('inner') \
+                    and strip(s0['inner'][0]['inner'][0]).get('kind') == 'CallExpr':
+                call, kind = strip(s0['inner'][0]['inner'][0]), 'decl'
+            h = _callee_name(call) if call else None
+            if h in new and h != caller and shape(funcs[h][1]) in ('tail', 'expr') \
+                    and len(call['inner']) - 1 == len(params_of(funcs[h][1])):
+                stmts, rexpr = instantiate(funcs[h][1], call['inner'][1:])
+                if kind == 'stmt':
+                    out += stmts
+                    inlined.add(h)
+                    continue
+                if rexpr is not None and kind in ('assign', 'decl'):
+                    tname = unparen(S(target)) if kind == 'assign' else s0['inner'][0]['name']
+                    r0 = strip(rexpr)
+                    rid = (r0.get('referencedDecl') or {}).get('id') if r0.get('kind') == 'DeclRefExpr' else None
+                    local_decl = None
+                    for x in stmts:
+                        for y in _walk_nodes(x):
+                            if y.get('kind') == 'VarDecl' and y.get('id') == rid:
+                                local_decl = y
+                    plain_target = kind == 'decl' or strip(target).get('kind') == 'DeclRefExpr'
+                    if local_decl is not None and plain_target:
+                        # the helper returns one of its locals: that local IS the caller's variable (no copy-out)
+                        old_name = local_decl['name']
+
+                        def retarget(n):
+                            if not isinstance(n, dict):
+                                return n
+                            if n.get('kind') == 'DeclStmt' and any(v.get('id') == rid for v in n.get('inner', [])):
+                                keep = [v for v in n['inner'] if v.get('id') != rid]
+                                mine = [v for v in n['inner'] if v.get('id') == rid][0]
+                                res = []
+                                if keep:
+                                    m = dict(n)
+                                    m['inner'] = keep
+                                    res.append(m)
+                                if kind == 'decl':
+                                    vd = dict(s0['inner'][0])
+                                    vd['inner'] = [retarget(c) for c in mine.get('inner', [])]
+                                    ds = dict(s0)
+                                    ds['inner'] = [vd]
+                                    res.append(ds)
+                                elif mine.get('inner'):
+                                    res.append(dict(kind='BinaryOperator', opcode='=', inner=[target, retarget(mine['inner'][0])]))
+                                return dict(kind='CompoundStmt', inner=res, _splice=True)
+                            if n.get('kind') == 'DeclRefExpr' and (n.get('referencedDecl') or {}).get('id') == rid:
+                                if kind == 'assign':
+                                    return _deep(target)
+                                n = dict(n)
+                                n['referencedDecl'] = dict(n['referencedDecl'], name=tname, id=s0['inner'][0].get('id'))
+                                return n
+                            if n.get('inner'):
+                                n = dict(n)
+                                kids = []
+                                for c in n['inner']:
+                                    c2 = retarget(c)
+                                    if isinstance(c2, dict) and c2.get('_splice'):
+                                        kids += c2['inner']
+                                    else:
+                                        kids.append(c2)
+                                n['inner'] = kids
+                            return n
+                        new_stmts = []
+                        for x in stmts:
+                            x2 = retarget(x)
+                            if isinstance(x2, dict) and x2.get('_splice'):
+                                new_stmts += x2['inner']
+                            else:
+                                new_stmts.append(x2)
+                        out += new_stmts
+                        inlined.add(h)
+                        continue
+                    if kind == 'assign':
+                        out += stmts + [dict(kind='BinaryOperator', opcode='=', inner=[target, rexpr],
+                                             **{k: s0[k] for k in ('range', 'loc', 'type') if k in s0})]
+                    else:
+                        vd = dict(s0['inner'][0])
+                        vd['inner'] = [rexpr]
+                        ds = dict(s0)
+                        ds['inner'] = [vd]
+                        out += stmts + [ds]
+                    inlined.add(h)
+                    continue
+            out.append(st)
+        n = dict(n)
+        n['inner'] = out
+        return n
+
+    for _ in range(3):
+        before = len(inlined)
+        for u, data in units:
+            for fn in data['funcs']:
+                b = body_of(fn)
+                if b is None:
+                    continue
+                nb = process_expr(process_block(b, fn['name']))
+                fn['inner'] = [nb if c is b else c for c in fn['inner']]
+        if len(inlined) == before:
+            break
+    # drop helpers that are no longer called anywhere
+    still = set()
+    for u, data in units:
+        for fn in data['funcs']:
+            for x in _walk_nodes(fn):
+                rd = x.get('referencedDecl') if isinstance(x, dict) else None
+                if isinstance(rd, dict) and rd.get('kind') == 'FunctionDecl' and rd.get('name') != fn['name']:
+                    still.add(rd.get('name'))
+    for u, data in units:
+        keep = []
+        for fn in data['funcs']:
+            if fn['name'] in inlined and fn['name'] not in still:
+                notes.append('inlined new static helper %s' % fn['name'])
+                continue
+            keep.append(fn)
+        data['funcs'] = keep
+
+
 class CFunc:
     """One function definition with pre-computed fact lists."""
 
@@ -370,6 +750,7 @@ class CFunc:
         self._cur = self.line
         self.named = {}       # local -> init node, for locals declared with an initialiser and never re-assigned
         self.body = _while_to_for(self.body)
+        self.body = _cursor_pointers(self.body)
         self._collect_named(self.body)
         self.body = self._canon_pointers(self.body)
         self.named = {}
@@ -761,6 +1142,7 @@ class CProgram:
                         rd = n.get('referencedDecl')
                         if isinstance(rd, dict) and rd.get('kind') == 'FunctionDecl' and rd.get('name') in self.fn_renames:
                             rd['name'] = self.fn_renames[rd['name']]
+        _inline_new_c_helpers(self._units, self.notes)
         for u, data in self._units:
             for fn in data['funcs']:
                 f = CFunc(fn, u)
